@@ -328,13 +328,41 @@ def threadStartFacts : List String := [
   "janet_init; flags := msg.argi",
   "janet_ev_threaded_call: msg.argi := flags",
   "janet_ev_threaded_await: argi := flags",
-  "msg.argi := parameter argi; janet_ev_threaded_call(fp, msg)"]
+  "msg.argi := parameter argi; janet_ev_threaded_call(fp, msg)",
+  -- the message path inside the spawner (tools/gen/sandbox.py `thread_message_path`, data flow):
+  "init.msg := arguments; init.subr := fp; pthread_create(body, init)",   -- janet_ev_threaded_call: whole-struct copy into the
+                                                                         -- heap block handed to the new thread, not patched afterwards
+  "msg := init.msg; subr := init.subr; subr(msg)"]                        -- the thread body calls the subroutine with that copy
 
-def threadStartOK (ts : List (String × String)) : Bool :=
-  ts.all (fun t => threadStartFacts.contains t.2) &&
-  ts.contains ("janet_go_thread_subr", "janet_init; flags := msg.argi") &&
-  ts.any (fun t => t.2 == "janet_ev_threaded_call: msg.argi := flags" || t.2 == "janet_ev_threaded_await: argi := flags") &&
-  ts.contains ("janet_ev_threaded_await", "msg.argi := parameter argi; janet_ev_threaded_call(fp, msg)")
+/-- Thread start followed step by step, as a configuration of regenerated booleans (the general statement is proved under
+    `allChecked`; the instance for the current tree is `gen_threadStart`). -/
+structure ThreadCfg where
+  handover : Bool   -- every site that hands the thread-start subroutine to a spawner puts the CURRENT flag word into msg.argi
+                    -- (directly, or as the `argi` argument of janet_ev_threaded_await) - and no site does anything else with it
+  forward : Bool    -- janet_ev_threaded_await forwards its `argi` parameter as msg.argi to janet_ev_threaded_call
+  carried : Bool    -- janet_ev_threaded_call copies the message whole into the block it hands to pthread_create, and the thread
+                    -- body calls the subroutine with that copy
+  initCopy : Bool   -- the subroutine runs janet_init (word := 0) and then word := msg.argi
+  deriving DecidableEq, Repr
+
+def ThreadCfg.allChecked (c : ThreadCfg) : Bool := c.handover && c.forward && c.carried && c.initCopy
+
+def threadCfgOf (ts : List (String × String)) : ThreadCfg :=
+  { handover := ts.all (fun t => threadStartFacts.contains t.2) &&
+      ts.any (fun t => t.2 == "janet_ev_threaded_call: msg.argi := flags" || t.2 == "janet_ev_threaded_await: argi := flags"),
+    forward := ts.contains ("janet_ev_threaded_await", "msg.argi := parameter argi; janet_ev_threaded_call(fp, msg)"),
+    carried := ts.contains ("janet_ev_threaded_call", "init.msg := arguments; init.subr := fp; pthread_create(body, init)") &&
+      ts.contains ("thread body", "msg := init.msg; subr := init.subr; subr(msg)"),
+    initCopy := ts.contains ("janet_go_thread_subr", "janet_init; flags := msg.argi") }
+
+/-- The flag word a new thread ends up with, following the message from the hand-over site to the subroutine; `junk` stands
+    for whatever a step that is NOT of the checked shape may deliver. -/
+def spawnC (c : ThreadCfg) (parent junk : Nat) : Nat :=
+  let atSite := if c.handover && c.forward then parent else junk      -- msg.argi as handed to janet_ev_threaded_call
+  let atSubr := if c.carried then atSite else junk                    -- msg.argi as seen by the subroutine in the new thread
+  if c.initCopy then atSubr else 0                                    -- janet_init zeroes the word; then the copy (or not)
+
+def threadStartOK (ts : List (String × String)) : Bool := (threadCfgOf ts).allChecked
 
 /-- Data-flow shape of the two C functions behind `(sandbox & keywords)`, regenerated by tools/gen/sandbox.py
     `sandbox_cfun_shape` (loop syntax, block order and local names are free):
